@@ -293,6 +293,20 @@ func ruleQRFormulas(c *Ctx) {
 			a := call.Common().Args
 			for _, env := range insts {
 				n.env = append(n.env, env)
+				if lh := enclosingLoopHeader(b); lh != nil && len(lh.Succs) == 2 && lh.Succs[0] != b {
+					// a write that is guarded inside the loop (`if i < 7 {...} else {...}`) happens in the
+					// iterations that pass the guard
+					rc := n.ReachCond(placeFn, lh.Succs[0], b)
+					if eq, _ := CondEquivalent(rc, cFalse); eq {
+						n.env = n.env[:len(n.env)-1]
+						continue
+					}
+					if eq, _ := CondEquivalent(rc, cTrue); !eq {
+						c.Undecided(R7, "qr.drawFormatInfo/guard@"+c.P.Pos(call.Pos()), call.Pos(), "set call under a condition that the iteration does not decide: "+rc.String())
+						n.env = n.env[:len(n.env)-1]
+						continue
+					}
+				}
 				idx := "?"
 				if ld, ok := a[2].(*ssa.UnOp); ok {
 					if ia, ok := ld.X.(*ssa.IndexAddr); ok {
@@ -409,6 +423,18 @@ func ruleQRFormulas(c *Ctx) {
 				n.Bind[idx] = "i"
 				c.Check(R7, "qr.drawVersionInfo/loop-init", phi.Pos(), init == 0, "i starts at 0", fmt.Sprint(init))
 				c.expectCond(R7, "qr.drawVersionInfo/loop-cond", phi.Pos(), n.ReachCond(fn, hdr, calls[0].Block()), "i < len(bits)")
+			} else if rot, okR := rotatedLoop(enclosingLoopHeader(calls[0].Block())); okR {
+				// bottom-tested form (`for i := range n`)
+				rh := enclosingLoopHeader(calls[0].Block())
+				n.Bind[rot.phi] = "i"
+				init, isK := n.Norm(rot.init).IsConst()
+				c.Check(R7, "qr.drawVersionInfo/loop-init", rot.phi.Pos(), isK && init == 0, "i starts at 0", n.Norm(rot.init).String())
+				w := n.LoopWhile(rh)
+				if w == nil {
+					c.Undecided(R7, "qr.drawVersionInfo/loop-cond", rot.phi.Pos(), "entry test and continue test of the loop differ")
+				} else {
+					c.expectCond(R7, "qr.drawVersionInfo/loop-cond", rot.phi.Pos(), cAnd(w, n.ReachCond(fn, rh, calls[0].Block())), "i < len(bits)")
+				}
 			} else {
 				c.Undecided(R7, "qr.drawVersionInfo/loop", fn.Pos(), "no counting loop around the set calls")
 			}
@@ -496,6 +522,11 @@ func ruleQRFormulas(c *Ctx) {
 			if phi, init, ok := loopCounter(h); ok {
 				n.Bind[phi] = "i"
 				eq, _ := CondEquivalent(n.ReachCond(fn, h, call.Block()), MustRefCond(tmpl("i < 4 && bl.count < {cap}", m)))
+				if !eq && init == 0 && terminatorClosedForm(c, n, fn, h, phi, call, tmpl("{cap} - bl.count", m)) {
+					// the number of terminator bits computed up front: min(4, capacity - length), one bit per
+					// iteration - the same bits as testing the growing length every time
+					eq = true
+				}
 				if eq && init == 0 {
 					termOK = true
 				} else {
@@ -512,7 +543,15 @@ func ruleQRFormulas(c *Ctx) {
 		c.Check(R9, "qr.addPaddingAndTerminator/terminator-loop", fn.Pos(), termOK, "terminator loop: at most 4 zero bits while Len < capacity", fmt.Sprint(termOK))
 		c.Check(R9, "qr.addPaddingAndTerminator/align-loop", fn.Pos(), alignOK, "zero bits while Len % 8 != 0", fmt.Sprint(alignOK))
 		c236, c17 := addByte[236], addByte[17]
-		if len(padCalls) == 1 && len(addByte) == 0 {
+		if tg := padToggle(n, padCalls, loopOf); tg != nil {
+			// the pad byte kept in a loop variable that starts at 236 and flips between the two values
+			// on every way round: 236, 17, 236, ...
+			c.Check(R9, "qr.addPaddingAndTerminator/pad-init", tg.phi.Pos(), tg.first == 236, "starts with 236", fmt.Sprint(tg.first))
+			c.Check(R9, "qr.addPaddingAndTerminator/padbytes", tg.phi.Pos(), (tg.first == 236 && tg.other == 17), "pad bytes 236 and 17 only", fmt.Sprintf("%d and %d", tg.first, tg.other))
+			rc := n.ReachCond(fn, tg.h, padCalls[0].Block())
+			c.expectCond(R9, "qr.addPaddingAndTerminator/pad236-iff", padCalls[0].Pos(), rc, tmpl("bl.count < {cap}", m))
+			c.expectCond(R9, "qr.addPaddingAndTerminator/pad17-iff", padCalls[0].Pos(), rc, tmpl("bl.count < {cap}", m))
+		} else if len(padCalls) == 1 && len(addByte) == 0 {
 			// one AddByte whose argument is a choice (the pad codewords in a table, a selected value)
 			call := padCalls[0]
 			h := loopOf(call.Block())
@@ -864,4 +903,154 @@ func reachableWithin(d, b, p *ssa.BasicBlock) bool {
 		return false
 	}
 	return walk(b)
+}
+
+// terminatorClosedForm: the loop at h runs i = 0 .. min(4, room)-1 where room (the formula `room` over
+// the list's length) is read before the loop, and each iteration appends exactly one bit through the
+// one AddBit call - so the list grows in step with i and the count equals "while i < 4 and length <
+// capacity".
+func terminatorClosedForm(c *Ctx, n *Normer, fn *ssa.Function, h *ssa.BasicBlock, phi *ssa.Phi, addBit *ssa.Call, room string) bool {
+	// the bound: the other side of the comparison with the counter (or counter+1 at the bottom)
+	var bound ssa.Value
+	eachInstr(fn, func(b *ssa.BasicBlock, ins ssa.Instruction) {
+		iff, ok := ins.(*ssa.If)
+		if !ok || !(b == h || h.Dominates(b)) {
+			return
+		}
+		bo, ok := iff.Cond.(*ssa.BinOp)
+		if !ok || bo.Op != token.LSS {
+			return
+		}
+		x := bo.X
+		if inc, isInc := x.(*ssa.BinOp); isInc && inc.Op == token.ADD && inc.X == ssa.Value(phi) {
+			x = phi
+		}
+		if x == ssa.Value(phi) {
+			bound = bo.Y
+		}
+	})
+	mm, ok := bound.(*ssa.Call)
+	if !ok || !isMinMax(mm) || mm.Common().Value.(*ssa.Builtin).Name() != "min" {
+		return false
+	}
+	if mm.Block() == h || h.Dominates(mm.Block()) {
+		return false // recomputed inside the loop: not a count fixed up front
+	}
+	args := mm.Common().Args
+	four, roomV := args[0], args[1]
+	if k, isK := n.Norm(four).IsConst(); !isK || k != 4 {
+		four, roomV = args[1], args[0]
+	}
+	if k, isK := n.Norm(four).IsConst(); !isK || k != 4 {
+		return false
+	}
+	if !pEqual(n.Norm(roomV), MustRef(room)) {
+		return false
+	}
+	// exactly one bit per iteration: the AddBit call is the only call in the loop, has one bit, and is
+	// reached on every iteration
+	if len(addBit.Common().Args) != 2 {
+		return false
+	}
+	oneBit := false
+	if sl, isSl := addBit.Common().Args[1].(*ssa.Slice); isSl {
+		if al, isAl := sl.X.(*ssa.Alloc); isAl {
+			if arr, isArr := al.Type().Underlying().(*types.Pointer).Elem().Underlying().(*types.Array); isArr && arr.Len() == 1 {
+				oneBit = true
+			}
+		}
+	}
+	body := n.BodyStart(h)
+	always, _ := CondEquivalent(n.ReachCond(fn, body, addBit.Block()), cTrue)
+	return oneBit && always && loopCallCount(fn, h) == 1
+}
+
+func isCallInstr(ins ssa.Instruction) bool { _, ok := ins.(*ssa.Call); return ok }
+
+// loopCallCount: the number of non-builtin calls inside the loop headed by h.
+func loopCallCount(fn *ssa.Function, h *ssa.BasicBlock) int {
+	k := 0
+	for _, b := range fn.Blocks {
+		if b != h && !(h.Dominates(b) && reachableWithin(h, b, h)) {
+			continue
+		}
+		inLoop := b == h
+		if !inLoop {
+			for _, p := range h.Preds {
+				if h.Dominates(p) && (p == b || reachableWithin(h, b, p)) {
+					inLoop = true
+				}
+			}
+		}
+		if !inLoop {
+			continue
+		}
+		for _, ins := range b.Instrs {
+			if call, ok := ins.(*ssa.Call); ok {
+				if _, isB := call.Common().Value.(*ssa.Builtin); !isB {
+					k++
+				}
+			}
+		}
+	}
+	return k
+}
+
+type padTog struct {
+	phi          *ssa.Phi
+	h            *ssa.BasicBlock
+	first, other int64
+}
+
+// padToggle: the one pad call appends a loop variable p with p0 = A and p' = p ^ (A^B) (or the other
+// value picked by comparison) on every back edge - the values alternate A, B, A, ...
+func padToggle(n *Normer, padCalls []*ssa.Call, loopOf func(*ssa.BasicBlock) *ssa.BasicBlock) *padTog {
+	if len(padCalls) != 1 {
+		return nil
+	}
+	phi, ok := padCalls[0].Common().Args[1].(*ssa.Phi)
+	if !ok {
+		return nil
+	}
+	h := loopOf(padCalls[0].Block())
+	if h == nil || phi.Block() != h {
+		return nil
+	}
+	t := &padTog{phi: phi, h: h, first: -1, other: -1}
+	for ei, e := range phi.Edges {
+		if h.Dominates(h.Preds[ei]) {
+			bo, isBo := e.(*ssa.BinOp)
+			if !isBo || bo.Op != token.XOR {
+				return nil
+			}
+			var mask ssa.Value
+			switch {
+			case bo.X == ssa.Value(phi):
+				mask = bo.Y
+			case bo.Y == ssa.Value(phi):
+				mask = bo.X
+			default:
+				return nil
+			}
+			k, isK := n.Norm(mask).IsConst()
+			if !isK {
+				return nil
+			}
+			if t.other >= 0 && t.other != k {
+				return nil
+			}
+			t.other = k // the mask for now
+		} else {
+			k, isK := n.Norm(e).IsConst()
+			if !isK || (t.first >= 0 && t.first != k) {
+				return nil
+			}
+			t.first = k
+		}
+	}
+	if t.first < 0 || t.other < 0 {
+		return nil
+	}
+	t.other = t.first ^ t.other
+	return t
 }
